@@ -38,6 +38,10 @@ pub enum Recipe {
     AffineRoundTrip(Box<Recipe>),
     /// (R + S) - S: same element, fresh projective scaling
     AddSub(Box<Recipe>, Box<Recipe>),
+    /// integer multiplication through the *constant-time* ladder (min: scalar_mul; ark: mul_bigint)
+    MulLimbsCt(Vec<u64>, Box<Recipe>),
+    /// constant-time selection between two elements (min: ConditionallySelectable; ark: plain choice)
+    Select(bool, Box<Recipe>, Box<Recipe>),
 }
 
 use Recipe::*;
@@ -52,8 +56,8 @@ impl Recipe {
     pub fn kids(&self) -> Vec<&Recipe> {
         match self {
             Identity | Default | Generator | Elligator(_) | Hash(..) | MulGen(_) => vec![],
-            ReDecode(a) | Neg(a) | Double(a) | Mul(_, a) | MulLimbs(_, a) | Torsion(a) | MinusOneTimes(a) | AffineRoundTrip(a) => vec![a],
-            Add(a, b) | Sub(a, b) | AddSub(a, b) => vec![a, b],
+            ReDecode(a) | Neg(a) | Double(a) | Mul(_, a) | MulLimbs(_, a) | MulLimbsCt(_, a) | Torsion(a) | MinusOneTimes(a) | AffineRoundTrip(a) => vec![a],
+            Add(a, b) | Sub(a, b) | AddSub(a, b) | Select(_, a, b) => vec![a, b],
         }
     }
     pub fn size(&self) -> usize {
@@ -79,7 +83,8 @@ impl Recipe {
             Neg(_) => c.neg(&kids[0].pt),
             Double(_) => c.dbl(&kids[0].pt),
             Mul(k, _) => c.mul(&k.0, &kids[0].pt),
-            MulLimbs(l, _) => c.mul(&crate::api::int_of_limbs(l), &kids[0].pt),
+            MulLimbs(l, _) | MulLimbsCt(l, _) => c.mul(&crate::api::int_of_limbs(l), &kids[0].pt),
+            Select(choice, ..) => kids[if *choice { 1 } else { 0 }].pt.clone(),
             Torsion(_) => c.other_rep(&kids[0].pt),
             MinusOneTimes(_) => c.neg(&kids[0].pt),
             AffineRoundTrip(_) => kids[0].pt.clone(),
@@ -111,6 +116,8 @@ impl Recipe {
             Double(_) => B::double(&k(0)),
             Mul(s, _) => B::mul_fr(&k(0), &s.0),
             MulLimbs(l, _) => B::mul_limbs(&k(0), l),
+            MulLimbsCt(l, _) => B::mul_limbs_ct(&k(0), l),
+            Select(choice, ..) => B::select(&k(0), &k(1), *choice),
             Torsion(_) => B::add(&k(0), &t2::<B>()),
             MinusOneTimes(_) => B::mul_fr(&k(0), &(&R.m - 1u32)),
             AffineRoundTrip(_) => B::affine_roundtrip(&k(0)),
@@ -140,8 +147,8 @@ impl Recipe {
         let rebuild = |i: usize, new: Recipe| -> Recipe {
             let mut c = self.clone();
             match &mut c {
-                ReDecode(a) | Neg(a) | Double(a) | Mul(_, a) | MulLimbs(_, a) | Torsion(a) | MinusOneTimes(a) | AffineRoundTrip(a) => **a = new,
-                Add(a, b) | Sub(a, b) | AddSub(a, b) => {
+                ReDecode(a) | Neg(a) | Double(a) | Mul(_, a) | MulLimbs(_, a) | MulLimbsCt(_, a) | Torsion(a) | MinusOneTimes(a) | AffineRoundTrip(a) => **a = new,
+                Add(a, b) | Sub(a, b) | AddSub(a, b) | Select(_, a, b) => {
                     if i == 0 {
                         **a = new
                     } else {
@@ -193,6 +200,8 @@ pub fn recipe_depth(depth: u32) -> BoxedStrategy<Recipe> {
                 2 => inner.clone().prop_map(|a| MinusOneTimes(Box::new(a))),
                 2 => inner.clone().prop_map(|a| AffineRoundTrip(Box::new(a))),
                 2 => inner.clone().prop_map(|a| ReDecode(Box::new(a))),
+                1 => (gen::scalar_limbs(), inner.clone()).prop_map(|(k, a)| MulLimbsCt(k, Box::new(a))),
+                1 => (any::<bool>(), inner.clone(), inner.clone()).prop_map(|(c, a, b)| Select(c, Box::new(a), Box::new(b))),
                 2 => (inner.clone(), inner).prop_map(|(a, b)| AddSub(Box::new(a), Box::new(b))),
             ]
         })
